@@ -438,6 +438,8 @@ fn run_real(script: &str, dir: &Path, valgrind: bool) -> Result<Obs, String> {
             Err(e) => return Err(e.to_string()),
         }
     };
+    // whatever the script left running in its process group must not outlive the run
+    let _ = unsafe { libc::kill(-(child.id() as i32), libc::SIGKILL) };
     let stdout = t1.join().unwrap_or_default();
     let stderr = t2.join().unwrap_or_default();
     use std::os::unix::process::ExitStatusExt;
